@@ -321,7 +321,9 @@ func (e *vxSQLEnv) handle(ev vx.SQLEvent) vx.SQLResult {
 	}
 	if e.appLockMs > 0 && vxNeedsWriteLock(ev.SQL) {
 		if e.connTimeout[ev.Conn] < e.appLockMs {
+			// the statement waited as long as its connection allows, then gave up
 			e.busySeen++
+			e.appLockMs -= e.connTimeout[ev.Conn]
 			return vx.SQLResult{Err: "database is locked (5) (SQLITE_BUSY)"}
 		}
 		e.appLockMs = 0 // waited; the application's transaction has ended
